@@ -101,7 +101,7 @@ def small_graphs(ck, n, masks, contiguous_lo=None, tag=""):
         if err:
             bad += 1
             if bad <= 2:
-                ck.violation(err, {"kind": "small", "n": n, "mask": mask, "edges": mask_edges(n, mask), "impl": row})
+                ck.violation(err, {"kind": "small", "n": n, "mask": mask, "edges": mask_edges(n, mask), "impl": row}, independent=True)
             codes.append(ERR)
         else:
             codes.append(label_code(n, [[idx[m] for m in c] for c in row["c"]]))
@@ -142,7 +142,7 @@ def small_graphs(ck, n, masks, contiguous_lo=None, tag=""):
                              % (row["c"], [["m%d" % v for v in c] for c in decode_code(n, spec)], n, mask_edges(n, mask),
                                 "accept" if chk == 1 else "reject"),
                              {"kind": "small", "n": n, "mask": mask, "edges": mask_edges(n, mask), "impl": row,
-                              "spec": decode_code(n, spec), "model": decode_code(n, model) if model < ERR else "error"})
+                              "spec": decode_code(n, spec), "model": decode_code(n, model) if model < ERR else "error"}, independent=True)
         elif model != code:
             ntie += 1
             if ntie <= 2:
@@ -350,7 +350,7 @@ def big_graphs(ck, graphs, e2e_results=None):
                     if ent:
                         ck.known_finding(ent)
                     else:
-                        ck.violation("; ".join(problems[:4]), replay)
+                        ck.violation("; ".join(problems[:4]), replay, independent=True)
                 continue
             # tie: implementation vs code model (every order of the model gives the same sets / statistics)
             if g["kind"] == "e2e":
@@ -438,32 +438,32 @@ def cli_project(ck, d, n, edges, names, k, replay_extra=None):
     summ = data.get("summary", {})
     if summ.get("deps_modules_in_cycles") != run["total_modules"]:
         ck.violation("summary.deps_modules_in_cycles %s differs from TotalModulesInCycles %s"
-                     % (summ.get("deps_modules_in_cycles"), run["total_modules"]), rx)
+                     % (summ.get("deps_modules_in_cycles"), run["total_modules"]), rx, independent=True)
     # `pyscn check --select deps`: one line per cycle
     rc2, out2, err2 = lib.pyscn(["check", "--select", "deps", "."], d)
     lines = re.findall(r"circular dependency detected: (.*)", out2 + err2)
     chk_cycles = sorted(sorted(short(x.strip()) for x in l.split("->")) for l in lines)
     if chk_cycles != sorted(sorted(c["modules"]) for c in cycles):
-        ck.violation("`pyscn check --select deps` lists cycles %s, `pyscn analyze` lists %s" % (chk_cycles, sorted(sorted(c["modules"]) for c in cycles)), rx)
+        ck.violation("`pyscn check --select deps` lists cycles %s, `pyscn analyze` lists %s" % (chk_cycles, sorted(sorted(c["modules"]) for c in cycles)), rx, independent=True)
     if (rc2 != 0) != (len(cycles) > 0):
-        ck.violation("`pyscn check --select deps` exit code %d with %d cycles" % (rc2, len(cycles)), rx)
+        ck.violation("`pyscn check --select deps` exit code %d with %d cycles" % (rc2, len(cycles)), rx, independent=True)
     # --max-cycles: the check fails iff there are more cycles than allowed; --allow-circular-deps never fails
     if cycles and (k < 4 or k % 3 == 0):
         nc = len(cycles)
         for limit in (nc - 1, nc, nc + 1):
             rc3, out3, err3 = lib.pyscn(["check", "--select", "deps", "--max-cycles", str(limit), "."], d)
             if (rc3 != 0) != (nc > limit):
-                ck.violation("`pyscn check --select deps --max-cycles %d` exit code %d with %d cycles" % (limit, rc3, nc), rx)
+                ck.violation("`pyscn check --select deps --max-cycles %d` exit code %d with %d cycles" % (limit, rc3, nc), rx, independent=True)
         rc4, out4, err4 = lib.pyscn(["check", "--select", "deps", "--allow-circular-deps", "."], d)
         if rc4 != 0:
-            ck.violation("`pyscn check --select deps --allow-circular-deps` exit code %d" % rc4, rx)
+            ck.violation("`pyscn check --select deps --allow-circular-deps` exit code %d" % rc4, rx, independent=True)
     # the dependency part of a full `pyscn analyze` is the one of `--select deps`
     if k in (1, 2):
         rcf, full, errf = lib.analyze_json(d, [])
         cdf = (((full or {}).get("system") or {}).get("DependencyAnalysis") or {}).get("CircularDependencies") if full else None
         if cdf != cd and not (not cdf and not cd):
             ck.violation("CircularDependencies of a full `pyscn analyze --json` differ from `--select deps`",
-                         dict(rx, full=cdf, select_deps=cd))
+                         dict(rx, full=cdf, select_deps=cd), independent=True)
     return dict({"kind": "e2e", "n": n, "edges": edges, "names": names, "impl": [run], "dir": d}, **(replay_extra or {}))
 
 
@@ -1037,7 +1037,7 @@ def namespace_cycle(ck):
         chk = sorted(sorted(x.strip() for x in l.split("->")) for l in lines)
         if chk != want or rc2 == 0:
             ck.violation("`pyscn check --select deps` lists cycles %s (exit %d), `pyscn analyze` lists %s (modules of a namespace package)"
-                         % (chk, rc2, got), dict(replay, check_cycles=chk, check_exit=rc2))
+                         % (chk, rc2, got), dict(replay, check_cycles=chk, check_exit=rc2), independent=True)
 
 
 def main(tier):
